@@ -36,12 +36,15 @@ def corrupt(line, fam):
         e["steps"][0]["oc"]["size"] = 5
     elif fam == "shape":
         e["cmps"] = 500
+    elif fam == "exo":
+        e["out"] = 3
     return json.dumps(e)
 
 FAMS = [("seq", "TraceSeq", "C03", "arraylist"), ("que", "TraceQue", "C05", "circularbuffer"), ("heap", "TraceHeap", "C06", "binaryheap"),
         ("set", "TraceSet", "C04", "linkedhashset"), ("map", "TraceMap", "C01", "hashbidimap"), ("cur", "TraceCursor", "C08", "arraylist"),
         ("enum", "TraceEnum", "C14", "linkedhashset"), ("json", "TraceJSON", "C11", "arrayqueue"), ("alias", "TraceAlias", "C16", "arraystack"),
-        ("alg", "TraceAlg", "C13", "hashset"), ("clr", "TraceClear", "C15", "arraystack"), ("shape", "TraceShape", "C07", "treeset")]
+        ("alg", "TraceAlg", "C13", "hashset"), ("clr", "TraceClear", "C15", "arraystack"), ("shape", "TraceShape", "C07", "treeset"),
+        ("exo", "TraceExo", "C17", "doublylinkedlist")]
 
 def main(argv):
     run = runner.Run("SELFTEST", "quick", 1)
@@ -89,8 +92,11 @@ def main(argv):
             for sid in ids:
                 meta = json.load(open(os.path.join(ROOT, "seeded", sid, "meta.json")))
                 props = meta["checks_run"]["caught_by_quick"][:1]
+                env = dict(os.environ)
+                if meta["checks_run"].get("base"):      # a change written against an earlier commit of /repo (before a fix:)
+                    env["BASE"] = meta["checks_run"]["base"]
                 p = subprocess.run([os.path.join(ROOT, "tools", "try_seed.sh"), os.path.join(ROOT, "seeded", sid)] + props,
-                                   stdout=subprocess.PIPE, stderr=subprocess.STDOUT, text=True)
+                                   stdout=subprocess.PIPE, stderr=subprocess.STDOUT, text=True, env=env)
                 rcs = re.findall(r"== (C\d+) rc=(\d+)", p.stdout)
                 ok = rcs and all(rc == "1" for _, rc in rcs)
                 failures += 0 if ok else 1
